@@ -137,4 +137,27 @@ Proof.
   { clear. induction (olist (b_records b)) as [|r t IH]; cbn [map records_ops]; [reflexivity|]. rewrite record_reencode. f_equal. exact IH. }
   rewrite E. unfold len. now rewrite map_length.
 Qed.
+
+(* Records (the magic-byte peek): a batch is recognised by its magic byte 2, sixteen bytes in *)
+Theorem top_roundtrip_batch depth b ops bs : batch_ok b -> batch_ops compress b = inr ops -> spec_bytes ops = inr bs ->
+  forall d rest, at_ d (bs ++ rest) -> len (raw d) < MAXLEN ->
+  exists d', records_decode_top decompress depth d = Ok (RDefault (norm_batch b)) d' /\ raw d' = raw d /\ off d' = off d + len bs.
+Proof.
+  intros Hok Hops Hspec d rest Hat Hraw.
+  destruct (batch_roundtrip b ops bs Hok Hops Hspec d rest Hat Hraw) as (d' & E & R & O & _).
+  exists d'. split; [|split; assumption]. unfold records_decode_top.
+  destruct (batch_ops_shape b ops Hok Hops) as (comp & _ & _ & ->).
+  destruct (inner_bytes b (len (olist (b_records b))) comp) as (ib & Hib & _ & _).
+  rewrite spec_bytes_cons, spec_bytes_frame, Hib in Hspec. cbn [real_prim spec_bytes frame_field] in Hspec.
+  apply inr_inj in Hspec. subst bs.
+  assert (Hib2 : exists tl, ib = be 4 (b_leader_epoch b) ++ [2] ++ tl).
+  { unfold inner_ops in Hib. rewrite !spec_bytes_cons in Hib. cbn [real_prim] in Hib. destruct Hok as (_ & _ & Hver & _). rewrite Hver in Hib.
+    destruct (spec_bytes (EFrame _ _ _)) as [e|x]; [discriminate|]. apply inr_inj in Hib. subst ib. exists x. reflexivity. }
+  destruct Hib2 as (tl & ->).
+  assert (Hat16 : at_ d ((be 8 (b_first_offset b) ++ be 4 (len (be 4 (b_leader_epoch b) ++ [2] ++ tl)) ++ be 4 (b_leader_epoch b)) ++ 2 :: (tl ++ [] ++ rest))).
+  { rewrite app_nil_r in Hat. rewrite <- !app_assoc in *. cbn [app] in *. exact Hat. }
+  pose proof (peek_int8_at d _ 2 _ Hat16 ltac:(lia)) as Pk.
+  rewrite !len_app, !len_be in Pk. change (Z.of_nat 8 + (Z.of_nat 4 + Z.of_nat 4)) with MAGIC_OFFSET in Pk.
+  rewrite Pk. cbn [bind]. change (i8 2 <? 2) with false. cbn iota. rewrite E. reflexivity.
+Qed.
 End Codec.
